@@ -22,6 +22,12 @@ type MsgPipe struct {
 	garbage      bool // the stream has turned to garbage: every further Decode fails
 	buffered     bool
 	readErr      string
+	// Eraser state of the writers of this pipe since verifEncodeLockBegin: the locks held (by any goroutine: a
+	// parent holding the lock while its helper encodes also serialises) at every Encode so far
+	lockGen   int
+	lockCand  map[*Cell]bool
+	lockCount int
+	lockBad   bool
 }
 
 type pipeMsg struct {
@@ -134,13 +140,14 @@ func (ex *Exec) atpAPI(name string, args []Value, fr *Frame, pos token.Pos) (Val
 		return bvConst(64, uint64(ex.encodesUnlocked)), true
 	case "verifEncodeLockBegin":
 		ex.encodesUnlocked = 0
+		ex.encLockGen++
 		return nil, true
 	case "verifEncodeLockCheck":
 		id := ex.concName(args[0])
 		ex.addEvent("sharedcheck", id, nil)
 		if ex.encodesUnlocked > 0 {
 			m, _, _ := ex.model(nil)
-			ex.recordCE("sharedwrite", id, fmt.Sprintf("%d Encode call(s) on a shared encoder were made with no mutex held", ex.encodesUnlocked), ex.posOf(fr, pos), "", m)
+			ex.recordCE("sharedwrite", id, fmt.Sprintf("%d encoder(s) shared by several writers have no common mutex over their Encode calls", ex.encodesUnlocked), ex.posOf(fr, pos), "", m)
 		}
 		return nil, true
 	}
@@ -203,18 +210,32 @@ func (ex *Exec) pipeOf(v Value, fr *Frame, pos token.Pos) *MsgPipe {
 
 func (ex *Exec) cborEncode(enc Value, v IfaceV, fr *Frame, pos token.Pos) Value {
 	p := ex.pipeOf(enc, fr, pos)
-	if len(ex.heldLocks()) == 0 {
-		// not held by the encoding goroutine itself; a parent that holds the lock while its helper goroutine
-		// encodes (sendRuntimeMessage) also serialises the writes
-		anyHeld := false
+	if ex.encLockGen > 0 {
+		held := map[*Cell]bool{}
+		for _, l := range ex.heldLocks() {
+			held[l] = true
+		}
 		if ex.sched != nil {
 			for _, g := range ex.sched.gs {
-				if !g.done && len(g.held) > 0 {
-					anyHeld = true
+				if !g.done {
+					for _, l := range g.held {
+						held[l] = true
+					}
 				}
 			}
 		}
-		if !anyHeld {
+		if p.lockGen != ex.encLockGen {
+			p.lockGen, p.lockCand, p.lockCount, p.lockBad = ex.encLockGen, held, 0, false
+		} else {
+			for l := range p.lockCand {
+				if !held[l] {
+					delete(p.lockCand, l)
+				}
+			}
+		}
+		p.lockCount++
+		if p.lockCount >= 2 && len(p.lockCand) == 0 && !p.lockBad {
+			p.lockBad = true
 			ex.encodesUnlocked++
 		}
 	}
